@@ -92,6 +92,45 @@ static void run_history(int model, long mp, bool nosym, const std::vector<Op>& o
                     use(Ntot.getMatrixElement(ket)); use(sz.getMatrixElement(ket));
                 }
             }
+            else if (k == "M") {
+                // the getters, printers and copies of the documented classes (output goes to a null stream)
+                s0.L.printSites(); s0.L.printTerms(2); s0.L.printTerms(4);
+                { Lattice copy(s0.L); copy.printTerms(2); }
+                s0.IndexInfo->printIndices();
+                for (int m = 0; m < nm; m++) { IndexClassification::IndexInfo info = s0.IndexInfo->getInfo(m); if ((int)s0.IndexInfo->getIndex(info) != m) cnt.unexpected = "IndexClassification::getIndex(getInfo(i)) != i"; s0.IndexInfo->checkIndex(m); }
+                try { s0.IndexInfo->getInfo(nm); cnt.unexpected = "IndexClassification::getInfo(out of range) did not throw"; } catch (std::exception&) { cnt.expected_exc++; }
+                { Symmetrizer Sy2(*s0.IndexInfo, *s0.Storage); std::vector<Operator> iom; iom.push_back(OperatorPresets::N(nm)); Sy2.compute(iom); (void)Sy2.getQuantumNumbers(); StatesClassification S2(*s0.IndexInfo, Sy2); S2.compute(); sink = sink + S2.NumberOfBlocks(); }
+                for (auto& o : s0.Symm->getOperations()) use(MelemType(o->commutes(*s0.Storage)));
+                if (hComp) for (BlockNumber b = 0; b < s0.S->NumberOfBlocks(); b++) {
+                    const HamiltonianPart& hp = s0.H->getPart(b);
+                    (void)hp.getQuantumNumbers(); hp.print_to_screen();
+                    for (InnerQuantumState i = 0; i < hp.getSize(); i++) { VectorType v = hp.getEigenState(i); use(v[0]); use(hp.getMatrixElement(i, i)); }
+                    (void)s0.H->getPart(s0.S->getQuantumNumbers(b));
+                }
+                if (rhoComp) {
+                    sink = sink + rho->getAverageEnergy() + rho->getAverageOccupancy();
+                    for (int i = 0; i < nm; i++) { sink = sink + rho->getAverageOccupancy(i); for (int j = 0; j < nm; j++) sink = sink + rho->getAverageDoubleOccupancy(i, j); }
+                    for (BlockNumber b = 0; b < s0.S->NumberOfBlocks(); b++) { const DensityMatrixPart& dp = rho->getPart(s0.S->getQuantumNumbers(b)); sink = sink + dp.getPartialZ() + dp.getAverageEnergy() + (rho->isRetained(b) ? 1 : 0); }
+                }
+                if (opsComp) for (int m = 0; m < nm; m++) {
+                    const AnnihilationOperator& C = Ops->getAnnihilationOperator(m);
+                    for (BlockNumber b = 0; b < s0.S->NumberOfBlocks(); b++) {
+                        BlockNumber l = C.getLeftIndex(b);
+                        if (!l.isCorrect()) continue;
+                        const FieldOperatorPart& part = C.getPartFromRightIndex(b);
+                        (void)part.getLeftIndex(); (void)part.getRightIndex(); part.print_to_screen();
+                        sink = sink + part.getRowMajorValue().nonZeros() + part.getColMajorValue().nonZeros();
+                    }
+                }
+                if (rhoComp && opsComp) {
+                    GreensFunction g(*s0.S, *s0.H, Ops->getAnnihilationOperator(0), Ops->getCreationOperator(nm - 1), *rho);
+                    g.prepare(); g.compute();
+                    GreensFunction g2(g);
+                    use(g2(1)); sink = sink + g2.getIndex(0) + g2.getIndex(1) + g2.isVanishing();
+                }
+                { DynamicIndexCombination a(nm), b(std::vector<ParticleIndex>(nm, 0)); for (int i = 0; i < nm; i++) a[i] = nm - 1 - i; bool lt = a < b, eq = a == b, ne = a != b; sink = sink + lt + eq + ne + a.getIndex(0) + a.getNumberOfIndices(); b = a;
+                  try { a.getIndex(nm + 3); } catch (std::exception&) { cnt.expected_exc++; } }
+            }
             else if (k == "D") {
                 if (!hComp) { cnt.skipped++; continue; }
                 beta = std::max(1, atoi(arg(0).c_str()));
@@ -204,6 +243,7 @@ static std::string gen_ops(hc::Rng& r, int nm) {
     if (r.pct(15)) ops.push_back("Hc");
     if (r.pct(30)) ops.push_back("Q");
     if (r.pct(20)) ops.push_back("OP:" + q2());
+    if (r.pct(10)) ops.push_back("M");
     ops.push_back("D:" + std::to_string(r.pick(std::vector<int>{1, 2, 5, 10, 20, 40})));
     if (r.pct(20)) ops.push_back("T:" + std::to_string(r.range(1, 8)));
     ops.push_back("O");
@@ -217,7 +257,8 @@ static std::string gen_ops(hc::Rng& r, int nm) {
         else if (x < 72) ops.push_back("V:" + q4() + ":" + std::to_string(r.range(0, 3)));
         else if (x < 88) ops.push_back("S:" + q2() + q2() + ":" + (r.pct(50) ? "d" : "k"));
         else if (x < 94) ops.push_back("A:" + q2());
-        else if (x < 97) ops.push_back("T:" + std::to_string(r.range(1, 8)));
+        else if (x < 96) ops.push_back("T:" + std::to_string(r.range(1, 8)));
+        else if (x < 98) ops.push_back("M");
         else ops.push_back("D:" + std::to_string(r.pick(std::vector<int>{1, 3, 10})));
     }
     std::string s; for (auto& o : ops) { if (!s.empty()) s += '|'; s += o; }
